@@ -544,6 +544,8 @@ impl Map {
                 }
 
                 let Some((k, v)) = map.get_index(index) else {
+                    // an emptied entry (tombstone left by a deletion under a running iterator)
+                    index += 1;
                     continue;
                 };
 
